@@ -211,6 +211,30 @@ def probe_ops():
         ["helper", "cfgkey2name", 0x10010001],
         ["parse", f(b"\x06", b"\x8b", bytes([1, 0, 0, 0]) + (0x10340014).to_bytes(4, "little") + b"\x01"), 0, 1],  # aliased key
         ["helper", "cfgkey2name", 0x10340014],
+        # values that compare (and hash) equal but encode differently or are refused:
+        # +0.0 / -0.0 / 0 / False and 1 / 1.0 / True - after one another, same field
+        ["build-kw", b"\x06\x06", 1, [["dX", 0.0], ["dY", 0.0]]],
+        ["build-kw", b"\x06\x06", 1, [["dX", -0.0], ["majA", -0.0]]],
+        ["build-kw", b"\x06\x06", 1, [["dX", 0], ["majA", 0]]],
+        ["helper", "val2bytes", 0.0, "R004"],
+        ["helper", "val2bytes", -0.0, "R004"],
+        ["helper", "val2bytes", -0.0, "R008"],
+        ["helper", "val2bytes", 0.0, "R008"],
+        ["helper", "val2bytes", 1, "U001"],
+        ["helper", "val2bytes", 1.0, "U001"],
+        ["helper", "val2bytes", True, "U001"],
+        ["helper", "val2bytes", 1.0, "R004"],
+        ["helper", "val2bytes", 1, "R004"],
+        ["helper", "val2bytes", 0, "I002"],
+        ["helper", "val2bytes", -0.0, "I002"],
+        ["config", "set", 1, 0, [["CFG_TP_DUTY_TP1", 0.0]]],
+        ["config", "set", 1, 0, [["CFG_TP_DUTY_TP1", -0.0]]],
+        ["config", "set", 1, 0, [["CFG_TP_DUTY_TP1", 0]]],
+        ["config", "set", 1, 0, [["CFG_UART1_BAUDRATE", 9600.0]]],
+        ["config", "set", 1, 0, [["CFG_UART1_ENABLED", True]]],
+        ["config", "set", 1, 0, [["CFG_UART1_ENABLED", 1]]],
+        ["build-kw", b"\x06\x01", 1, [["msgClass", 1.0]]],
+        ["build-kw", b"\x06\x01", 1, [["msgClass", True], ["msgID", 1]]],
         ["stream", f(b"\x05", b"\x01", b"\x06\x01") + b"$GNGLL,5327.04319,N,00214.41396,W,223232.00,A,A*68\r\n"
          + f(b"\x06", b"\x31", b"\x00") + b"\xd3\x00\x00", 0],
     ]
